@@ -913,8 +913,8 @@ def c20(ctx):
             os.remove(path)
         summ, races = run_race(ctx, ["register-race", "-rounds", str(rr), "-g", "16", "-o", path], mp, "register-race")
         race_violation("racing registrations, GOMAXPROCS=%d" % mp, races)
-        if not os.path.exists(path):
-            continue
+        if not os.path.exists(path) or any("fatal error" in rc.get("report", "") for rc in races):
+            continue  # the harness ended the run (deadlock watchdog / runtime fatal error): reported above, no complete trace
         lines = open(path).read().splitlines()
         bad = ctx.tlc_trace("RegistryTrace.tla", "RegistryTrace.cfg", path, "registry_trace.ndjson", histories=rr,
                             label="%d rounds of 16 racing registrations of one version, GOMAXPROCS=%d: %s" % (rr, mp, json.dumps(summ)))
